@@ -1,8 +1,75 @@
-(* C04 — pins (theorems in Proofs/C04Main.v to follow). *)
-From Coq Require Import String Ascii ZArith QArith List Bool.
-From RV Require Import Base.Val Gen.Annot Model.Annot.
+(* C04 — stacking annotation equals its geometric definition: pins and theorems about Model.Annot.find_stackings, which
+   the correspondence check ties to annotator.find_stackings.  Only `exact`. *)
+From Coq Require Import String Ascii ZArith QArith Qreals Reals List Bool Permutation Sorted.
+From RV Require Import Base.Val Gen.Annot Model.Geom Model.Annot Proofs.BandsR Proofs.TriSem Proofs.C04Main.
 Import ListNotations.
+Local Close Scope Q_scope.
 
-Lemma C04_pin_thresholds : stacking_max_distance == 6 /\ stacking_normals_angle == 35 /\ stacking_vector_angle == 45 /\ annotator_as_modelled = true.
+Lemma C04_pin_thresholds : (stacking_max_distance == 6 /\ stacking_normals_angle == 35 /\ stacking_vector_angle == 45)%Q /\ annotator_as_modelled = true.
 Proof. repeat split; reflexivity. Qed.
 Print Assumptions C04_pin_thresholds.
+
+(* reported = the neighbour pairs (centroids within 6 A) whose decisions do not say No *)
+Theorem C04_reported_iff : forall rs order e, Permutation order (stacking_neighbours rs) ->
+    (In e (so_stackings (find_stackings rs order)) <->
+     exists ab, In ab (stacking_neighbours rs) /\ fst (stack_pair rs (centres rs) ab) = Some e).
+Proof. exact reported_iff_neighbours. Qed.
+Print Assumptions C04_reported_iff.
+
+(* one neighbour pair: the entry and the undecided flag as a function of the two decisions *)
+Theorem C04_pair_decisions : forall rs cs a b i si ki j sj kj ri rj ni nj,
+    nth_error cs a = Some (i, (si, ki)) -> nth_error cs b = Some (j, (sj, kj)) ->
+    nth_error rs i = Some ri -> nth_error rs j = Some rj -> base_normal ri = Some ni -> base_normal rj = Some nj ->
+    stack_pair rs cs (a, b) =
+      match parallel ni nj, along (vsubZ (scale kj si) (scale ki sj)) ni nj with
+      | No, _ => (None, false)
+      | Near, No => (None, true)
+      | Yes, No => (None, false)
+      | Yes, Yes => (Some (entry_of i j ri rj ni nj), false)
+      | _, _ => (Some (entry_of i j ri rj ni nj), true)
+      end.
+Proof. exact stack_pair_decisions. Qed.
+Print Assumptions C04_pair_decisions.
+
+(* the decisions mean what the property says, in degrees (real numbers): normals within 35 degrees of (anti)parallel *)
+Theorem C04_normals_decision : forall a b,
+    match cos2_atleast cos2_normals_lo cos2_normals_hi a b with
+    | Yes => ~ degenerate a b /\ (c2 (Q2R stacking_normals_angle) < cosang2 a b)%R
+    | Near => ~ degenerate a b /\ (c2 (Q2R stacking_normals_angle + eps) < cosang2 a b < c2 (Q2R stacking_normals_angle - eps))%R
+    | No => degenerate a b \/ (cosang2 a b < c2 (Q2R stacking_normals_angle))%R
+    end.
+Proof. exact normals_meaning. Qed.
+Print Assumptions C04_normals_decision.
+
+(* the centroid vector within 45 degrees of a normal *)
+Theorem C04_vector_decision : forall v n,
+    match angle_atmost cos2_vector_lo cos2_vector_hi v n with
+    | Yes => (0 < dotZ v n)%Z /\ ~ degenerate v n /\ (c2 (Q2R stacking_vector_angle) < cosang2 v n)%R
+    | Near => (0 < dotZ v n)%Z /\ ~ degenerate v n /\ (c2 (Q2R stacking_vector_angle + eps) < cosang2 v n < c2 (Q2R stacking_vector_angle - eps))%R
+    | No => (dotZ v n <= 0)%Z \/ degenerate v n \/ (cosang2 v n < c2 (Q2R stacking_vector_angle))%R
+    end.
+Proof. exact vector_meaning. Qed.
+Print Assumptions C04_vector_decision.
+
+(* each pair once *)
+Theorem C04_reported_once : forall rs order, Permutation order (stacking_neighbours rs) ->
+    NoDup (map fst (so_stackings (find_stackings rs order))).
+Proof. exact reported_once_neighbours. Qed.
+Print Assumptions C04_reported_once.
+
+(* the validated neighbour set itself has each pair once, lower centre first *)
+Theorem C04_neighbours_ok : forall rs, NoDup (stacking_neighbours rs) /\ forall ab, In ab (stacking_neighbours rs) -> fst ab < snd ab.
+Proof. exact neighbours_ok. Qed.
+Print Assumptions C04_neighbours_ok.
+
+(* ordered: never descending by (first residue, second residue, topology) *)
+Theorem C04_reported_sorted : forall rs order,
+    LocallySorted (fun x y => stack_ltb rs y x = false) (so_stackings (find_stackings rs order)).
+Proof. exact reported_sorted. Qed.
+Print Assumptions C04_reported_sorted.
+
+(* the arrival order of the KD-tree pairs only permutes the result *)
+Theorem C04_order_independent : forall rs o1 o2, Permutation o1 o2 ->
+    Permutation (so_stackings (find_stackings rs o1)) (so_stackings (find_stackings rs o2)).
+Proof. exact reported_order_independent. Qed.
+Print Assumptions C04_order_independent.
